@@ -20,29 +20,35 @@ RULE = (
     "overlapping but different supports."
 )
 ASSUMPTIONS = [
-    "coefficients are real Python numbers in [-3, 3]; comparisons at 1e-9 absolute (sums of <= 40 terms of magnitude <= 9)",
+    "coefficients are real Python numbers in [-3, 3]; comparisons at 1e-9 absolute (sums of <= 1000 terms of magnitude <= 9)",
     "Bessel's correction is only requested with >= 2 shots (the docstring states divergence at 1)",
     "'a constant term contributes exactly its coefficient' is read as: no sampling error, compared at 1e-12 relative (the library sums count/shots fractions in floating point, which can be 1 ulp off 1.0)",
 ]
 
 
 @st.composite
-def cases(draw, tier):
-    n = draw(st.integers(1, 6))
-    pool = draw(st.lists(st.tuples(*[st.integers(0, 1)] * n), min_size=1, max_size=5))
-    shots = draw(st.lists(st.sampled_from(pool), min_size=draw(st.sampled_from([1, 2, 4, 8, 16])), max_size=40 if tier == "quick" else 120))
+def cases(draw, tier, wide=False):
+    if wide:
+        # registers wider than a machine word / a byte of packed bits, hundreds of shots
+        n = draw(st.sampled_from([7, 8, 9, 15, 16, 17, 31, 32, 33, 63, 64, 65, 70]))
+        pool = draw(st.lists(st.lists(st.integers(0, 1), min_size=n, max_size=n).map(tuple), min_size=1, max_size=8))
+        shots = draw(st.lists(st.sampled_from(pool), min_size=draw(st.sampled_from([1, 2, 50, 127, 128, 255, 256, 257])), max_size=300 if tier == "quick" else 1000))
+    else:
+        n = draw(st.integers(1, 6))
+        pool = draw(st.lists(st.tuples(*[st.integers(0, 1)] * n), min_size=1, max_size=5))
+        shots = draw(st.lists(st.sampled_from(pool), min_size=draw(st.sampled_from([1, 2, 4, 8, 16])), max_size=40 if tier == "quick" else 120))
     terms = []
     for _ in range(draw(st.sampled_from([0, 1, 2, 3, 3, 4, 5, 6]))):
-        qs = draw(st.lists(st.integers(0, n - 1), unique=True, max_size=n))
+        qs = draw(st.lists(st.integers(0, n - 1), unique=True, max_size=min(n, 12)))
         c = draw(st.one_of(st.floats(-3, 3, allow_nan=False), st.integers(-2, 2)))
         terms.append({"q": sorted(qs), "c": c})
     if terms and draw(st.integers(0, 3)) == 0:
         terms.append(dict(draw(st.sampled_from(terms))))
     counts = {}
     for _ in range(draw(st.integers(1, 5))):
-        k = "".join(str(b) for b in draw(st.tuples(*[st.integers(0, 1)] * n)))
-        counts[k] = draw(st.integers(1, 30))
-    marked = draw(st.lists(st.integers(0, n - 1), unique=True, max_size=n))
+        k = "".join(str(b) for b in draw(st.lists(st.integers(0, 1), min_size=n, max_size=n)))
+        counts[k] = draw(st.integers(1, 30) if not wide else st.sampled_from([1, 3, 255, 256, 1000, 70000]))
+    marked = draw(st.lists(st.integers(0, n - 1), unique=True, max_size=min(n, 12)))
     return {"n": n, "shots": [list(s) for s in shots], "terms": terms, "as_term": draw(st.booleans()),
             "counts": counts, "marked": marked}
 
@@ -240,4 +246,6 @@ SUBCHECKS = [
 SUBCHECKS.append(SubCheck("measurement_history", None, machine=machine, examples=(300, 2000), shards=(2, 8), steps=(12, 25),
                           rule="one Measurements object queried (counts / distribution / expectation values) between replacements, edits and extensions of "
                                "its shots: every report equals the statistic of the shots it holds at that moment; non-trivial = shots replaced or edited after a query"))
+SUBCHECKS.append(SubCheck("wide_long", oracle, strategy=lambda tier: cases(tier, wide=True), examples=(150, 800), shards=(4, 16),
+                          rule="same oracle on registers of 7..70 qubits (around byte / word boundaries), up to 300 (1000) shots, counts up to 70000"))
 SUBCHECKS[0].expected_classes = ["constant_term", "overlapping_supports", "single_shot", "repeated_support"]
